@@ -124,6 +124,20 @@ func splitKind(kind string) (class, typ string) {
 	return "", kind
 }
 
+// KindCPU: histories on buffers of a few hundred bytes take milliseconds
+// (evidence: coverage.most_expensive_case.per_kind); a call that does not
+// return is reported after 20 s of CPU time instead of 60.
+func (h *histProp) KindCPU(kind, tier string) int {
+	switch class, _ := splitKind(kind); class {
+	case "", "corpus", "long", "fixed", "mid":
+		if tier == "thorough" {
+			return 60
+		}
+		return 20
+	}
+	return 0
+}
+
 func (h *histProp) Gen(kind string, idx int64, seed int64, tier string) core.Case {
 	class, typ := splitKind(kind)
 	s := seed
